@@ -772,7 +772,8 @@ def gen_case_c11(seed, tier):
     for i in range(ntests):
         val = "pass" if rng.chance(0.7) else "fail"
         kind = rng.choice(["file", "file", "gen"])
-        t = {"name": "t%d" % i, "kind": "gentest", "srcs": [], "outs": [], "salt": "s%d" % i, "data": []}
+        # want: the data value with which the test passes; percfg: test_cmd given per build configuration
+        t = {"name": "t%d" % i, "kind": "gentest", "srcs": [], "outs": [], "salt": "s%d" % i, "data": [], "want": "pass", "percfg": rng.chance(0.4)}
         if kind == "file":
             pk["files"]["d%d.txt" % i] = val + "\n"
             t["data"] = ["f:d%d.txt" % i]
@@ -810,11 +811,16 @@ def gen_case_c11(seed, tier):
             old = nxt["pkgs"]["t"]["files"][f].strip()
             nxt["pkgs"]["t"]["files"][f] = ("fail" if old == "pass" else "pass") + "\n"
             desc = "flip %s to %s" % (f, nxt["pkgs"]["t"]["files"][f].strip())
-        else:
+        elif r < 90:
             ts = [t for t in nxt["pkgs"]["t"]["targets"] if t["kind"] == "gentest"]
             t = rng.choice(ts)
             t["salt"] = "s%d" % rng.intn(100000)
             desc = "change test_cmd of %s" % t["name"]
+        else:
+            ts = [t for t in nxt["pkgs"]["t"]["targets"] if t["kind"] == "gentest"]
+            t = rng.choice(ts)
+            t["want"] = "fail" if t.get("want", "pass") == "pass" else "pass"
+            desc = "test_cmd of %s now passes when the data says %s" % (t["name"], t["want"])
         cur = nxt
         states.append(rs.clone(cur))
         steps.append({"kind": "edit", "desc": desc, "state": len(states) - 1})
@@ -827,7 +833,8 @@ def c11_render(spec, log):
     for t in s["pkgs"]["t"]["targets"]:
         lab = "//t:" + t["name"]
         if t["kind"] == "gentest":
-            t["test_cmd"] = 'run() { echo "TS %s ${1-}" >> %s; : %s; if [ "${1-}" = skip ]; then exit 0; fi; test "`cat $DATA`" = pass; }; run' % (lab, log, t["salt"])
+            cmd = 'run() { echo "TS %s ${1-}" >> %s; : %s; if [ "${1-}" = skip ]; then exit 0; fi; test "`cat $DATA`" = %s; }; run' % (lab, log, t["salt"], t.get("want", "pass"))
+            t["test_cmd"] = {"opt": cmd, "dbg": "echo dbg; " + cmd, "cover": "echo cover; " + cmd} if t.get("percfg") else cmd
         else:
             t["cmd"] = 'echo "S %s" >> %s; cat $SRCS > $OUT; echo "E %s ok" >> %s' % (lab, log, lab, log)
     return s
@@ -841,8 +848,8 @@ def c11_expect(spec):
             continue
         d = t["data"][0]
         content = files[d[2:]] if d.startswith("f:") else files["g" + t["name"][1:] + ".txt"]
-        exp["//t:" + t["name"]] = content.strip() == "pass"
-        dig["//t:" + t["name"]] = sig(t["salt"], d, content)
+        exp["//t:" + t["name"]] = content.strip() == t.get("want", "pass")
+        dig["//t:" + t["name"]] = sig(t["salt"], t.get("want", "pass"), d, content)
     return exp, dig
 
 
